@@ -426,7 +426,7 @@ def rule_s5(ck, prog, S):
     # removals: after the last removal on every path, SCPI_ErrorEmitEmpty before return
     n = 0
     for f in sorted(prog.functions.values(), key=lambda f: (f.relfile, f.line)):
-        rem = [c for c in f.calls() if c.get("callee") in ("fifo_remove", "fifo_clear", "fifo_remove_last")
+        rem = [c for c in f.calls() if c.get("callee") in ("fifo_remove", "fifo_clear", "fifo_remove_last", "fifo_init")
                and is_queue(c)]
         if not rem:
             continue
